@@ -17,7 +17,7 @@ CONFIG = {
                    "function of its input) are not generated. lastmodificationdate is not read back by the tool's reader and "
                    "is not listed by the property. Control characters are outside the quantifier."),
     "technique": "deterministic simulation: seeded histories with hostile text; tool reader vs independent XML reader vs inputs",
-    "quick": {"runs": 640, "budget_s": 90},
+    "quick": {"runs": 900, "budget_s": 120},
     "thorough": {"runs": 6000, "budget_s": 540},
     "rule": ("one run = random world + 3..12 operations; one evaluation = one XML file read back by both readers. Distinct = "
              "(file kind, #records, #references, has previousPath, #patterns, #authors, set of name classes present: "
